@@ -49,6 +49,7 @@ type VirtualMachine struct {
 	running      bool
 	concAllowed  bool
 	callDepth    int
+	globalsGiven bool
 	runMutex     sync.Mutex
 	cloneMutex   sync.Mutex
 	tmp          [MaxArgs]object.Object
@@ -102,6 +103,7 @@ func (vm *VirtualMachine) applyOptions(options []Option) error {
 	}
 
 	// Apply options
+	vm.globalsGiven = false
 	for _, opt := range options {
 		opt(vm)
 	}
